@@ -6,8 +6,8 @@
 cd "$(dirname "$0")" || exit 1
 export CARGO_NET_OFFLINE=true
 mkdir -p .cache evidence replay
-python3 translator/c2lean.py --repo "${VERIF_REPO:-/repo}" --out lean/TsVerif/Gen --status .cache/gen_status.json || exit 1
-(cd lean && lake build TsVerif.Common.Tree TsVerif.Common.IO tsv-gen) || exit 1
+python3 translator/c2lean.py --repo "${VERIF_REPO:-/repo}" --raw --out lean/TsVerif/GenRaw --status .cache/gen_status.json || exit 1
+(cd lean && lake build TsVerif.Common.Tree TsVerif.Common.IO TsVerif.Common.GenTie tsv-gen) || exit 1
 (cd harness && cargo build --release --offline --lib) || exit 1
 for id in $(python3 -c "import json; print(' '.join(c['property_id'] for c in json.load(open('MANIFEST.json'))['checks']))"); do
   lid=$(echo "$id" | tr 'A-Z' 'a-z')
